@@ -90,12 +90,13 @@ type Task struct {
 	nchild int
 	prio   int // PCT priority
 	// bookkeeping for reports
-	steps    int
-	idle     bool // parked in WaitQuiescent
-	exiting  bool
-	Panic    any
-	PanicStk string
-	daemon   bool
+	steps      int
+	idle       bool // parked in WaitQuiescent
+	exitPoints int
+	exiting    bool
+	Panic      any
+	PanicStk   string
+	daemon     bool
 }
 
 func (t *Task) String() string {
@@ -328,6 +329,13 @@ func PointT(kind Kind, obj any, pred Pred) *Task {
 		return nil
 	}
 	if t.exiting {
+		// the task is unwinding (Goexit) and its deferred functions reach sim points: let them run, but a
+		// deferred function that loops (e.g. an unlimited redial loop) must not spin for ever
+		t.exitPoints++
+		if t.exitPoints > 5000 {
+			t.exitPoints = 0
+			runtime.Goexit()
+		}
 		return t
 	}
 	if s.abort.Load() {
